@@ -1,3 +1,3 @@
 #!/bin/sh
 # Run the repository's pinned test suite (guard off) and print the summary line.
-cd /repo && CUQIPY_VERIF= /venv/bin/python -m pytest -ra -q -p no:cacheprovider --timeout=900 --continue-on-collection-errors -x --no-header -W ignore 2>&1 | grep -E "passed|failed|error" | tail -3
+cd /repo && CUQIPY_VERIF= OMP_NUM_THREADS=2 OPENBLAS_NUM_THREADS=2 MKL_NUM_THREADS=2 /venv/bin/python -m pytest -ra -q -p no:cacheprovider --timeout=900 --continue-on-collection-errors -x --no-header -W ignore 2>&1 | grep -E "passed|failed|error" | tail -3
